@@ -342,6 +342,21 @@ void HttpMessage::readBody()
 		if (chunked)
 		{
 			String chunkSize = _socket->readLine();
+			// chunk-size is 1 to 8 hex digits with a value up to 0x7fffffff, then optional blanks, then the CR of the line
+			// end or a ";extension" (RFC 7230 4.1); with a sign, a 0x prefix, more digits or anything else the value
+			// strtoul makes of the line is not what the peer wrote and the framing is lost: give the connection up
+			const char* cs = *chunkSize;
+			int nd = 0;
+			while (isxdigit((unsigned char)cs[nd]))
+				nd++;
+			int k = nd;
+			while (cs[k] == ' ' || cs[k] == '\t')
+				k++;
+			if (nd < 1 || nd > 8 || (cs[k] != '\r' && cs[k] != ';') || chunkSize.hexToInt() > 0x7fffffffu)
+			{
+				_socket->close();
+				return;
+			}
 			maxToRead = chunkSize.hexToInt();
 			if (maxToRead == 0)
 				end = true;
